@@ -384,7 +384,44 @@ fn directed_prelude(ty: &str, rng: &mut Rng) -> Option<(u64, Vec<Vec<u64>>)> {
     let m1 = (m0 + 1 + rng.below(2)) % 3;
     let nodup = 1; // first DELIVER arg: 0 = re-deliver a known op, otherwise an unknown one
     match ty {
-        "orswot" => Some(match rng.below(4) {
+        "orswot" => Some(match rng.below(6) {
+            // two removers (different actors) remove different members under the SAME context;
+            // each remove reaches a different fresh replica before the add; the merge laws are
+            // probed on those two states, then they merge and the add arrives
+            4 => (1, vec![
+                vec![K_EDIT, ra, m0, 3, m1, m1, 1],     // A: add_all [m0, m1]         (op 0)
+                vec![K_DELIVER, rb, nodup, 0],
+                vec![K_DELIVER, rc, nodup, 0],
+                vec![K_EDIT, rb, m0, 4],                 // B: rm m0, ctx {A:1}          (op 1)
+                vec![K_EDIT, rc, m1, 4],                 // C: rm m1, ctx {A:1}          (op 2)
+                vec![K_SPAWN, 0, 3],                     // fresh D
+                vec![K_SPAWN, 0, 4],                     // fresh E
+                vec![K_DELIVER, 3, nodup, 1],            // D gets B's remove: pending
+                vec![K_DELIVER, 4, nodup, 2],            // E gets C's remove: pending
+                vec![K_LAWS, 3, 4, ra],
+                vec![K_LAWS, 4, 3, rb],
+                vec![K_MERGE, 3, 4],
+                vec![K_DELIVER, 3, nodup, 0],            // the add arrives at D
+                vec![K_DELIVER, 4, nodup, 0],            // and at E
+                vec![K_MERGE, 4, 3],
+            ]),
+            // a member witnessed by two actors; two removers each saw a different single witness;
+            // the holder of both witnesses meets them in either grouping
+            5 => (1, vec![
+                vec![K_EDIT, ra, m0, 0],                 // A: add m0                   (op 0)
+                vec![K_EDIT, rb, m0, 0],                 // B: add m0 concurrently      (op 1)
+                vec![K_DELIVER, rc, nodup, 0],           // C learns A's add only
+                vec![K_EDIT, rc, m0, 4],                 // C: rm m0 (saw A's witness)  (op 2)
+                vec![K_SPAWN, 0, 3],                     // fresh D
+                vec![K_DELIVER, 3, nodup, 1],            // D learns B's add only
+                vec![K_EDIT, 3, m0, 4],                  // D: rm m0 (saw B's witness)  (op 3)
+                vec![K_DELIVER, ra, nodup, 0],           // A learns B's add: holds both witnesses
+                vec![K_LAWS, ra, rc, 3],
+                vec![K_LAWS, rc, ra, 3],
+                vec![K_LAWS, 3, rc, ra],
+                vec![K_MERGE, ra, rc],
+                vec![K_MERGE, ra, 3],
+            ]),
             // a pending remove must travel with a merged state to a replica that already has the add
             3 => (1, vec![
                 vec![K_EDIT, ra, m0, 0],                 // A: add m0                   (op 0)
@@ -427,6 +464,17 @@ fn directed_prelude(ty: &str, rng: &mut Rng) -> Option<(u64, Vec<Vec<u64>>)> {
                 vec![K_MERGE, rc, ra],
             ]),
         }),
+        // two replicas write the same content-addressed node independently; one of them
+        // overwrites it; a third replica receives the equal node after the overwriting one
+        "merkle" if rng.below(2) == 0 => Some((2, vec![
+            vec![K_EDIT, ra, 0, 0],                      // A: root n                    (op 0)
+            vec![K_EDIT, rb, 0, 0],                      // B: the equal node            (op 1)
+            vec![K_EDIT, ra, 1, 2],                      // A: c on top of n             (op 2)
+            vec![K_DELIVER, rc, nodup, 0],               // C gets n
+            vec![K_DELIVER, rc, nodup, 1],               // C gets c
+            vec![K_DELIVER, rc, nodup, 0],               // C gets B's equal node
+            vec![K_DELIVER, rb, nodup, 1],               // B gets c
+        ])),
         "merkle" => Some((2, vec![
             // a node arrives before its child at one replica (orphan); the replica holding the
             // child merges that state
